@@ -7,7 +7,11 @@ Supported subset (see DESIGN.md C17): classes deriving (single inheritance) from
 defines __init__/__enter__/__exit__; class-body constants; classmethods whose bodies consist of
   cls.A = e | if e is [not] None: ... | if cond: ... elif ... else ... | return e | raise ...
   | super().m(...) | cls.m(...) ;
-instance methods additionally  self.F = e | self.F.append(e) | x = self.F.pop() | self.__class__.m(...)
+instance methods additionally  self.F = e | self.F.append(e) | self.F += [e] | self.F = self.F + [e] | x = self.F.pop()
+  | self.__class__.m(...) | type(self).m(...) | k = self.__class__ (a local alias of the class; never stored)
+expressions: constants, torch dtypes, names, attribute reads, `a if c else b`, `a or b`, `a and b`, `not a`,
+  `x is [not] None`, `a == b`, calls of the class methods.  Truthiness follows Python: None, False, numeric zero
+  (token 0 is RESERVED for 0 / 0.0 / -0.0) and the empty list are false, everything else is true.
 composite classes whose __init__ builds part contexts  self.P = Cls(e)  and whose
 __enter__/__exit__ call self.P.__enter__() / self.P.__exit__().
 """
@@ -25,6 +29,19 @@ class Untranslatable(Exception):
     pass
 
 
+CLS = "@cls"     # pseudo value: a reference to the class object (self.__class__ / type(self) / cls); never emitted
+
+
+def canon_num(v):
+    """canonical text of a number: Python compares numbers by value (0 == 0.0 == -0.0, 1 == 1.0), and every zero is
+    falsy; all zeros share token 0"""
+    if v == 0:
+        return "0"
+    if float(v) == int(v) and abs(v) < 2 ** 53:
+        return repr(int(v))
+    return repr(v)
+
+
 class ClassInfo:
     def __init__(self, name, node, base):
         self.name, self.node, self.base = name, node, base
@@ -36,8 +53,9 @@ class ClassInfo:
 class Translator:
     def __init__(self, sources):
         self.classes = {}
-        self.consts_table = []     # python repr of every literal constant -> token index
+        self.consts_table = ["0"]  # canonical text of every literal constant -> token index; 0 = numeric zero (falsy)
         self.resets = {}
+        self.path_resets = {}      # (class, method) -> list over execution paths of the set of non-slot attributes reset to None
         for src in sources:
             self.load(src)
         self.n = 0
@@ -89,10 +107,11 @@ class Translator:
             if v is True or v is False:
                 return "(VBool %s)" % ("true" if v else "false")
             if isinstance(v, (int, float)):
-                return self.tok(repr(v))
+                return self.tok(canon_num(v))
             raise Untranslatable("constant %r" % (v,))
-        if isinstance(e, ast.UnaryOp) and isinstance(e.op, ast.USub) and isinstance(e.operand, ast.Constant):
-            return self.tok(repr(-e.operand.value))
+        if isinstance(e, ast.UnaryOp) and isinstance(e.op, ast.USub) and isinstance(e.operand, ast.Constant) and \
+                isinstance(e.operand.value, (int, float)) and not isinstance(e.operand.value, bool):
+            return self.tok(canon_num(-e.operand.value))
         if isinstance(e, ast.Attribute) and isinstance(e.value, ast.Name) and e.value.id == "torch" and e.attr in DTYPES:
             return self.tok("torch." + DTYPES[e.attr])
         raise Untranslatable("not a constant: %s" % ast.dump(e)[:80])
@@ -157,9 +176,43 @@ class Translator:
         if isinstance(e, ast.Name):
             if e.id in env["locals"]:
                 return k(env["locals"][e.id], env)
+            if e.id == "cls" and env.get("cls_ok"):
+                return k(CLS, env)
             raise Untranslatable("unknown name %s" % e.id)
+        if self.is_class_ref(e, env):
+            return k(CLS, env)
         if isinstance(e, ast.List) and not e.elts:
             return k("(VList [])", env)
+        if isinstance(e, ast.BoolOp) and isinstance(e.op, (ast.Or, ast.And)):
+            # Python: `a or b` is a if a is true else b ; `a and b` is a if a is false else b (value, not bool)
+            is_or = isinstance(e.op, ast.Or)
+
+            def go(i, en):
+                if i == len(e.values) - 1:
+                    return self.expr(e.values[i], en, k)
+
+                def kk(v, en2):
+                    self.no_cls(v)
+                    keep = lambda: k(v, self.copy(en2))
+                    more = lambda: go(i + 1, self.copy(en2))
+                    if v in ("(VBool false)", "VNone", "(VTok 0%Z)", "(VList [])"):
+                        return more() if is_or else keep()
+                    if v == "(VBool true)" or (v.startswith("(VTok ") and v != "(VTok 0%Z)"):
+                        return keep() if is_or else more()
+                    return "(if truthy %s then %s else %s)" % ((v, keep(), more()) if is_or else (v, more(), keep()))
+                return self.expr(e.values[i], en, kk)
+            return go(0, env)
+        if isinstance(e, ast.BinOp) and isinstance(e.op, ast.Add) and isinstance(e.right, ast.List) and len(e.right.elts) == 1:
+            # l + [x]  (a NEW list; the model's lists are values, stack top = head, see vappend/vpop)
+            def kl(l, en):
+                self.no_cls(l)
+
+                def kx(x, en2):
+                    self.no_cls(x)
+                    r = self.fresh("l")
+                    return "match vappend %s %s with None => None | Some %s => %s end" % (l, x, r, k(r, en2))
+                return self.expr(e.right.elts[0], en, kx)
+            return self.expr(e.left, env, kl)
         if isinstance(e, ast.UnaryOp) and isinstance(e.op, ast.Not):
             return self.expr(e.operand, env, lambda v, en: k("(vnot %s)" % v, en))
         if isinstance(e, ast.IfExp):
@@ -212,12 +265,34 @@ class Translator:
             return "(VBool %s)" % ("true" if ta.group(1) == tb.group(1) else "false")
         return "(VBool (val_eqb %s %s))" % (a, b)
 
+    def is_class_ref(self, e, env):
+        """self.__class__ | type(self)   (in an instance method)"""
+        if not env.get("self_ok"):
+            return False
+        if isinstance(e, ast.Attribute) and e.attr == "__class__" and isinstance(e.value, ast.Name) and e.value.id == "self" \
+                and "self" not in env["locals"]:
+            return True
+        if isinstance(e, ast.Call) and isinstance(e.func, ast.Name) and e.func.id == "type" and "type" not in env["locals"] and \
+                len(e.args) == 1 and not e.keywords and isinstance(e.args[0], ast.Name) and e.args[0].id == "self" \
+                and "self" not in env["locals"]:
+            return True
+        return False
+
+    def no_cls(self, v):
+        if v == CLS:
+            raise Untranslatable("the class object is used as a value (stored, compared or returned)")
+        return v
+
     def target_kind(self, e, env):
+        if isinstance(e, ast.Name) and env["locals"].get(e.id) == CLS:
+            return "cls"
+        if isinstance(e, ast.Name) and e.id in env["locals"]:
+            return None
         if isinstance(e, ast.Name) and e.id == "self" and env.get("self_ok"):
             return "self"
         if isinstance(e, ast.Name) and e.id == "cls" and env.get("cls_ok"):
             return "cls"
-        if isinstance(e, ast.Attribute) and e.attr == "__class__" and isinstance(e.value, ast.Name) and e.value.id == "self" and env.get("self_ok"):
+        if self.is_class_ref(e, env):
             return "cls"
         return None
 
@@ -306,6 +381,8 @@ class Translator:
         if isinstance(st, ast.Return):
             if st.value is None:
                 return ret("VNone", env)
+            if isinstance(st.value, ast.Name) and st.value.id == "self" and env.get("self_ok") and env.get("top") == "__enter__":
+                return ret("VNone", env)      # `with ctx as x`: the model does not use the value of __enter__
             return self.expr(st.value, env, ret)
         if isinstance(st, ast.Raise):
             return "None"
@@ -313,12 +390,24 @@ class Translator:
             return self.cond(st.test, env,
                              lambda en: self.stmts(st.body + rest, en, ret),
                              lambda en: self.stmts(st.orelse + rest, en, ret))
+        if isinstance(st, ast.AugAssign) and isinstance(st.op, ast.Add) and isinstance(st.target, ast.Attribute) and \
+                self.target_kind(st.target.value, env) == "self" and isinstance(st.value, ast.List) and len(st.value.elts) == 1:
+            # self.F += [x]  on a field that __init__ (or another method) initialises by plain assignment: in-place
+            # extension of the object's own list = self.F = self.F + [x] for the value semantics of the model
+            load = ast.Attribute(value=st.target.value, attr=st.target.attr, ctx=ast.Load())
+            st = ast.Assign(targets=[st.target], value=ast.BinOp(left=load, op=ast.Add(), right=st.value))
         if isinstance(st, ast.Assign) and len(st.targets) == 1:
             t = st.targets[0]
             if isinstance(t, ast.Name):
+                if t.id in ("self", "type", "super", "torch"):
+                    raise Untranslatable("rebinding of %s" % t.id)
+
                 def k(v, en):
-                    x = self.fresh("v")
                     en = self.copy(en)
+                    if v == CLS:            # local alias of the class object
+                        en["locals"][t.id] = CLS
+                        return nxt(en)
+                    x = self.fresh("v")
                     en["locals"][t.id] = x
                     return "(let %s := %s in %s)" % (x, v, nxt(en))
                 return self.expr(st.value, env, k)
@@ -327,6 +416,9 @@ class Translator:
                 if tk == "self":
                     if t.attr not in env["fieldnames"]:
                         raise Untranslatable("assignment to undeclared field self.%s" % t.attr)
+                    if isinstance(st.value, ast.Attribute) and self.target_kind(st.value.value, env) == "self":
+                        # self.A = self.B would alias a mutable list; the model's lists are values
+                        raise Untranslatable("field self.%s initialised from another field (possible aliasing)" % t.attr)
                     i = env["fieldnames"].index(t.attr)
 
                     def k(v, en):
@@ -346,7 +438,9 @@ class Translator:
                     # a non-slot class attribute (cache): only resets to None are accepted
                     if isinstance(st.value, ast.Constant) and st.value.value is None:
                         self.resets.setdefault(env["cls"], set()).add(t.attr)
-                        return nxt(env)
+                        en = self.copy(env)
+                        en["resets"] = frozenset(env.get("resets", frozenset()) | {t.attr})
+                        return nxt(en)
                     raise Untranslatable("write to non-slot class attribute %s" % t.attr)
             raise Untranslatable("assignment %s" % ast.dump(st)[:100])
         if isinstance(st, ast.Expr) and isinstance(st.value, ast.Call):
@@ -428,10 +522,12 @@ class Translator:
                         raise Untranslatable("__exit__ inspects its exception arguments")
             fvars = ["o_%d" % i for i in range(len(fn_names))]
             env = self.base_env(cls, dcm, fn_names, fvars, svn)
+            env["top"] = m
 
-            def ret(v, en, m=m):
-                if m == "__exit__" and v not in ("(VBool false)", "VNone"):
+            def ret(v, en, m=m, nm=nm):
+                if m == "__exit__" and v not in ("(VBool false)", "VNone", "(VTok 0%Z)"):
                     raise Untranslatable("__exit__ may suppress exceptions (returns %s)" % v)
+                self.path_resets.setdefault((cls, nm), []).append(en.get("resets", frozenset()))
                 return "Some (%s, [%s])" % (self.sv_term(en["sv"]), "; ".join(en["fields"]))
             body = self.stmts(fnm.body, env, ret)
             out.append("Definition %s_%s (sv : slotvec) (o : list val) : option (slotvec * list val) :=\n  match o with [%s] => %s\n  | _ => None end." % (nm, cls, "; ".join(fvars), body))
@@ -570,7 +666,8 @@ class Translator:
         for c in comp:
             params, defaults, lets, parts, eo, xo = self.gen_composite(c, primsig)
             compinfo[c] = (params, defaults, parts, eo, xo)
-            # parts in ENTER order; the Coq side requires exit order == enter order == a permutation of all parts
+            # parts in ENTER order; the Coq side requires enter order and exit order to be permutations of all parts
+            # (the order itself is irrelevant: Generic.walk_perm)
             body = "Some []"
             seq = [parts[i] for i in eo]
             inner = "Some [%s]" % "; ".join("(c_%s, q%d)" % (p[1], j) for j, p in enumerate(seq))
@@ -580,12 +677,36 @@ class Translator:
             for x, v in reversed(lets):
                 inner = "(let %s := %s in %s)" % (x, v, inner)
             newcases.append("  | k_%s => match args with [%s] => %s | _ => None end" % (c, "; ".join("a_" + p for p in params), inner))
-            orders_ok.append("(list_nat_eqb [%s] [%s]) && (is_perm_of_range %d [%s])" % (
-                "; ".join("%d%%nat" % i for i in eo), "; ".join("%d%%nat" % i for i in xo), len(parts), "; ".join("%d%%nat" % i for i in eo)))
+            orders_ok.append("(is_perm_of_range %d [%s]) && (is_perm_of_range %d [%s])" % (
+                len(parts), "; ".join("%d%%nat" % i for i in eo), len(parts), "; ".join("%d%%nat" % i for i in xo)))
         A("Definition new (k : kid) (args : list val) (g : gs) : option (list (cid * list val)) := match k with\n%s end." % "\n".join(newcases))
         A("Fixpoint list_nat_eqb (a b : list nat) : bool := match a, b with [], [] => true | x :: r, y :: s => Nat.eqb x y && list_nat_eqb r s | _, _ => false end.")
         A("Definition is_perm_of_range (n : nat) (l : list nat) : bool := Nat.eqb (length l) n && forallb (fun i => existsb (Nat.eqb i) l) (seq 0 n).")
         A("Definition orders_ok : bool := %s." % (" && ".join(["true"] + orders_ok)))
+        # non-slot class attributes with a constant initial value (caches such as deterministic_probes.probe_vectors):
+        # FINITE TABLE of which of them every path of __enter__ / __exit__ resets to None
+        names = []
+        cache_of, ent_of, ext_of = {}, {}, {}
+        for c in prim:
+            ca = [a for d in self.mro(c) for a in self.classes[d].consts if a not in SLOTS and a != "_default"]
+            for a in ca:
+                if a not in names:
+                    names.append(a)
+            cache_of[c] = ca
+            for nm, tab in (("enter", ent_of), ("exit", ext_of)):
+                paths = self.path_resets.get((c, nm), [])
+                tab[c] = sorted(frozenset.intersection(*paths)) if paths else []
+                for a in tab[c]:
+                    if a not in names:
+                        names.append(a)
+        nl = lambda xs: "[%s]" % "; ".join("%d%%nat" % names.index(a) for a in xs)
+        for nm, tab in (("cache_attrs", cache_of), ("enter_resets", ent_of), ("exit_resets", ext_of)):
+            special = [c for c in prim if tab[c]]
+            A("Definition %s (c : cid) : list nat := match c with %s_ => [] end." % (
+                nm, "".join("c_%s => %s | " % (c, nl(tab[c])) for c in special)))
+        A("Definition caches_ok : bool := forallb (fun c => forallb (fun a => existsb (Nat.eqb a) (enter_resets c) && "
+          "existsb (Nat.eqb a) (exit_resets c)) (cache_attrs c)) all_cids.")
+        A("(* cache attribute names: %s *)" % "; ".join("%d=%s" % (i, a) for i, a in enumerate(names)))
         A("(* constant table (token -> python repr): %s *)" % "; ".join("%d=%s" % (i, r) for i, r in enumerate(self.consts_table)))
         A("(* non-slot class attributes reset to None by setters: %s *)" % "; ".join("%s:%s" % (c, sorted(v)) for c, v in sorted(self.resets.items())))
         meta = {"prim": prim, "comp": comp, "kinds": {c: self.kind_of(c) for c in prim},
@@ -593,8 +714,14 @@ class Translator:
                 "comp_info": {c: {"params": compinfo[c][0], "defaults": compinfo[c][1],
                                   "parts": [[p[0], p[1]] for p in compinfo[c][2]], "enter": compinfo[c][3], "exit": compinfo[c][4]} for c in comp},
                 "consts": self.consts_table, "observers": obsnames,
-                "resets": {c: sorted(v) for c, v in self.resets.items()}}
-        return "\n".join(L) + "\n", meta
+                "resets": {c: sorted(v) for c, v in self.resets.items()},
+                "caches": {c: {"attrs": cache_of[c], "enter": ent_of[c], "exit": ext_of[c]} for c in prim if cache_of[c]}}
+        code = "\n".join(L) + "\n"
+        if CLS in code:
+            raise Untranslatable("the class object is used as a value (stored, compared, tested or passed on)")
+        if len(self.consts_table) >= 1000:
+            raise Untranslatable("too many constants")
+        return code, meta
 
 
 def translate(repo):
